@@ -11,7 +11,7 @@ for pid in ids:
     if pid not in cfg["property"]:
         continue
     p = cfg["property"][pid]
-    engines = sorted({cfg["ob"][o].get("engine", "kani") for o in p["obligations"]})
+    engines = sorted({cfg["ob"][o.split("~")[0]].get("engine", "kani") for o in p["obligations"]})
     eng = " + ".join({"kani": "Kani/CBMC bounded model checking of the compiled functions",
                       "mir": "SMT (z3, cvc5 cross-check) over an encoding generated from the MIR dump"}[e] for e in engines)
     checks.append({
